@@ -206,3 +206,13 @@ async fn transfer_udp(socket: UdpSocket, current: ServerConfig<SslConfig>) {
     }
     .unwrap_or_else(|e| error!("[udp] transfer failed; error={}", e));
 }
+
+#[cfg(feature = "verif-hooks")]
+pub mod verif {
+    pub use super::config::SslConfig;
+    pub use super::handshake::verif as handshake;
+    pub use super::shadowsocks::verif as shadowsocks;
+    pub use super::template::verif as template;
+    pub use super::trojan::verif as trojan;
+    pub use super::vmess::verif as vmess;
+}
